@@ -270,6 +270,8 @@ def truthy(v):
         return z3.Length(v.t) > 0
     if isinstance(v, VAny):
         return py_truth(v.t)
+    if isinstance(v, VList) and getattr(v, 'gen', False):
+        return z3.BoolVal(True)
     if isinstance(v, (VTuple, VList, VSet)):
         return z3.BoolVal(len(v.items) > 0)
     if isinstance(v, VDict):
@@ -355,6 +357,10 @@ def veq(a, b, fresh_int=None):
     sc = (VNone, VBool, VInt, VStr, VAny)
     if isinstance(a, sc) and isinstance(b, sc):
         return to_pyval(a) == to_pyval(b)
+    if isinstance(a, VOpaque) or isinstance(b, VOpaque):
+        if a is b:
+            return z3.BoolVal(True)
+        return z3.Bool(fresh_name('opaque_eq'))      # nothing is known about an opaque value
     # values of different modelled shapes are unequal
     shapes = (VNone, VDType, VKind, VTuple, VList, VObj, VFunc, VClass)
     if isinstance(a, shapes) and isinstance(b, shapes + sc) or isinstance(b, shapes) and isinstance(a, sc):
